@@ -452,6 +452,9 @@ func (repo *GoGitRepo) PushRefs(remote string, prefixes ...string) (string, erro
 
 // StoreData will store arbitrary data and return the corresponding hash
 func (repo *GoGitRepo) StoreData(data []byte) (Hash, error) {
+	repo.rMutex.Lock()
+	defer repo.rMutex.Unlock()
+
 	obj := repo.r.Storer.NewEncodedObject()
 	obj.SetType(plumbing.BlobObject)
 
@@ -497,6 +500,9 @@ func (repo *GoGitRepo) ReadData(hash Hash) ([]byte, error) {
 
 // StoreTree will store a mapping key-->Hash as a Git tree
 func (repo *GoGitRepo) StoreTree(mapping []TreeEntry) (Hash, error) {
+	repo.rMutex.Lock()
+	defer repo.rMutex.Unlock()
+
 	var tree object.Tree
 
 	// TODO: can be removed once https://github.com/go-git/go-git/issues/193 is resolved
@@ -601,6 +607,9 @@ func (repo *GoGitRepo) StoreCommit(treeHash Hash, parents ...Hash) (Hash, error)
 // StoreSignedCommit will store a Git commit with the given Git tree. If signKey is not nil, the commit
 // will be signed accordingly.
 func (repo *GoGitRepo) StoreSignedCommit(treeHash Hash, signKey *openpgp.Entity, parents ...Hash) (Hash, error) {
+	repo.rMutex.Lock()
+	defer repo.rMutex.Unlock()
+
 	cfg, err := repo.r.Config()
 	if err != nil {
 		return "", err
